@@ -73,6 +73,45 @@ let parse_eobs line : eobs option =
            o_all = parse_ob (List.assoc "all" m) }
   with _ -> None
 
+(* ---------- engine: role manager (C03) ---------- *)
+let opt_of s = if s = "-" then None else Some (dec s)
+let lop_of s = match String.split_on_char ',' s with
+  | ["C"] -> LClear
+  | ["A"; a; b; d] -> LAdd (dec a, dec b, opt_of d)
+  | ["D"; a; b; d] -> LDel (dec a, dec b, opt_of d)
+  | _ -> failwith ("lop " ^ s)
+let lops_of s = if s = "-" then [] else List.map lop_of (String.split_on_char '|' s)
+let lq_of s = match String.split_on_char ',' s with
+  | ["H"; a; b; d] -> QHas (dec a, dec b, opt_of d)
+  | ["R"; n; d] -> QRoles (dec n, opt_of d)
+  | ["U"; n; d] -> QUsers (dec n, opt_of d)
+  | _ -> failwith ("lquery " ^ s)
+let names_str l =
+  let l = List.sort compare (List.map enc l) in
+  if l = [] then "-" else String.concat "," l
+let show_ans = function ABool b -> b01 b | ANames l -> names_str l
+let parse_ans q s = match q with
+  | QHas _ -> ABool (s = "1")
+  | _ -> ANames (if s = "-" then [] else List.map dec (String.split_on_char ',' s))
+
+let run_rm maxd ops qs =
+  let maxd = nat_of_int (int_of_string maxd) in
+  let ops = lops_of ops in
+  let m, res = List.fold_left (fun (m, acc) o ->
+      let (m', ok) = lstep m o in (m', b01 ok :: acc)) ([], []) ops in
+  let res = String.concat "" (List.rev res) in
+  let ans = List.map (fun q -> show_ans (answer maxd m (lq_of q))) (String.split_on_char '|' qs) in
+  Printf.sprintf "ops=%s q=%s" (if res = "" then "-" else res) (String.concat "|" ans)
+
+let pred_rm maxd ops qs impl =
+  let maxd = nat_of_int (int_of_string maxd) in
+  let h = lops_of ops in
+  let qs = List.map lq_of (String.split_on_char '|' qs) in
+  let m = kv impl in
+  let ans = String.split_on_char '|' (List.assoc "q" m) in
+  if List.length ans <> List.length qs then false
+  else List.for_all2 (fun q a -> c03_pred maxd h q (parse_ans q a)) qs ans
+
 (* ---------- dispatch ---------- *)
 let run_case (toks : string list) : string =
   match toks with
@@ -80,6 +119,7 @@ let run_case (toks : string list) : string =
   | ["effnew"; e; c] ->
     (match new_stream (dec e) (nat_of_int (int_of_string c)) with
      | Some _ -> "ok" | None -> "PANIC")
+  | ["rm"; maxd; ops; qs] -> run_rm maxd ops qs
   | _ -> "?unknown-case"
 
 let pred_case (toks : string list) (impl : string) : string =
@@ -93,6 +133,7 @@ let pred_case (toks : string list) (impl : string) : string =
     let exp = match new_stream (dec e) (nat_of_int (int_of_string c)) with
       | Some _ -> "ok" | None -> "PANIC" in
     b01 (impl = exp)
+  | ["rm"; maxd; ops; qs] -> (try b01 (pred_rm maxd ops qs impl) with _ -> "0")
   | _ -> "-"
 
 let read_lines f =
